@@ -7,14 +7,14 @@ EXPLANATION = ("Solver-decided part: with symbolic field values, serializing an 
                "lists the object was built from (heap aliasing is modelled, so a generator that dropped tuple(...) yields a counterexample). The clause 'assignment raises AttributeError' has no values to "
                "quantify over: it is decided by executing setattr for every public field and byte_size of every (nested) object in the interpreter's descriptor semantics on every explored path and "
                "confirmed by native replay of the same harness.")
-BOUNDS = {"quick": "every class of corpus/core; strings 0/1, arrays 0/1/2 elements (fixed ones at their length), all leaf values symbolic",
-          "thorough": "strings and arrays up to 2"}
+BOUNDS = {"quick": "every class of corpus/core plus a VERIF_SEED-chosen sample of 80 pairs + all singles of the generated pair corpus; strings 0/1, arrays 0/1/2 elements (fixed ones at their length), all leaf values symbolic",
+          "thorough": "core corpus with strings and arrays up to 2, plus ALL structs of the generated pair corpus"}
 OUTSIDE = "specifications not in the corpus; mutation through private attributes or object.__setattr__ (not the public interface)"
 ASSUMPTIONS = ["Python property objects without a setter raise AttributeError on assignment (descriptor semantics as modelled by the interpreter; confirmed natively per path model)"]
 
 
 def trees(tier):
-    return [("core", corpus.CORE)]
+    return [("core", corpus.CORE), ("pairs", corpus.pairs(tier, corpus.seed(), 80)[0])]
 
 
 def programs(tier):
@@ -24,5 +24,10 @@ def programs(tier):
 def jobs(tier):
     types, cls = corpus.classes()
     cfg = {"lens": [0, 1], "counts": [0, 1, 2]} if tier == "quick" else {"lens": [0, 1, 2], "counts": [0, 1, 2]}
-    return [dict(name=f"immutable[{c['name']}]", fn="immutable", args=[types, c, cfg], tree="core", collect_models=2,
-                 expect=["serializing the same instance twice yields identical bytes"]) for c in cls]
+    js = [dict(name=f"immutable[{c['name']}]", fn="immutable", args=[corpus.closure(types, c["instrs"]), c, cfg], tree="core", collect_models=2,
+               expect=["serializing the same instance twice yields identical bytes"]) for c in cls]
+    _, ptypes, pcls = corpus.pairs(tier, corpus.seed(), 80)
+    pcfg = {"lens": [0, 1], "counts": [0, 1]}
+    js += [dict(name=f"immutable[pairs:{c['name']}]", fn="immutable", args=[corpus.closure(ptypes, c["instrs"]), c, pcfg], tree="pairs", collect_models=1,
+                expect=["serializing the same instance twice yields identical bytes"]) for c in pcls]
+    return js
